@@ -201,6 +201,7 @@ def run(prop, tier, seed):
     else:
         docs = corpus.documents()
         if tier == 'quick': docs = [d for d in docs if '+lead' not in d[0] and '+mid' not in d[0]] + [d for d in docs if d[0] in ('txn2+mid', 'open3+mid')]
+        docs = docs + corpus.accepted_extras(lambda t: PARSER.parse(t, models.File), seed, 30 if tier == 'quick' else 300)
         for name, text in docs:
             try: c02_doc(name, text, prop, rep, rnd, tier)
             except Exception: rep.fail(f'{name}:driver-error', traceback.format_exc()[-500:], dict(mode='c02', doc=name))
@@ -217,7 +218,7 @@ def replay_case(case):
     elif case['mode'] == 'c12bc':
         c12_block_comment('thorough', rnd, rep)
     else:
-        c02_doc(case['doc'], dict(corpus.documents())[case['doc']], case.get('prop', 'C02'), rep, rnd, 'thorough')
+        c02_doc(case['doc'], corpus.lookup(case['doc']), case.get('prop', 'C02'), rep, rnd, 'thorough')
     return '\n'.join(f['message'] for f in rep.d['failures'][:5]) or None
 
 
